@@ -36,14 +36,29 @@ NPeer == 9
 PairVector(grp, i, j) ==
   LET x == ExpClass(grp, i) y == PeerClass(grp, j) yx == ExpClass(grp, ((i + j) % NExp) + 1) IN
   VectorD("dh", << [n |-> "x", t |-> x], [n |-> "y", t |-> yx] >>,
-    << Step("dh_pub", "C09", FALSE, [grp |-> grp, x |-> Var("x", 0)], [panic |-> FALSE, pub |-> PubT(grp, Var("x", 0))]),
-       Step("dh_shared", "C09", FALSE, [grp |-> grp, x |-> Var("x", 0), peer |-> y], [panic |-> FALSE, shared |-> SharedT(grp, Var("x", 0), y)]),
+    << Step("dh_pub", "C09", FALSE, [grp |-> grp, x |-> Var("x", 0)], [panic |-> FALSE, pub |-> PubT(grp, Var("x", 0)), again |-> TRUE, argsame |-> TRUE]),
+       Step("dh_shared", "C09", FALSE, [grp |-> grp, x |-> Var("x", 0), peer |-> y], [panic |-> FALSE, shared |-> SharedT(grp, Var("x", 0), y), again |-> TRUE, argsame |-> TRUE]),
        \* two parties with exponents x and y: each computes the shared secret from the other's public value
        Step("dh_pub", "C09", FALSE, [grp |-> grp, x |-> Var("y", 0)], [panic |-> FALSE, pub |-> PubT(grp, Var("y", 0))]),
        Step("dh_shared", "C09", FALSE, [grp |-> grp, x |-> Var("x", 0), peer |-> Ref(3, "pub")],
             [panic |-> FALSE, shared |-> SharedT(grp, Var("y", 0), PubT(grp, Var("x", 0)))]),
        Step("dh_shared", "C09", FALSE, [grp |-> grp, x |-> Var("y", 0), peer |-> Ref(1, "pub")],
             [panic |-> FALSE, shared |-> Ref(4, "shared")]) >>)
+
+\* peer values of more octets than the modulus, through CalculateDiffieHellmanMaterials: with the same random stream (hence the same
+\* exponent) the peer values y and 256 p + y (one octet longer, same residue) give the same public value and the same shared secret,
+\* and so do y and p + y; a value with a leading zero octet is the same number
+LongPeerVector(grp, k) ==
+  LET y == << 3 + k >> rnd == [mode |-> "det", seed |-> Seed + 60 + k]
+      st(peer, same) == Step("dh_calc", "C09", FALSE, [grp |-> grp, peer |-> Lit(peer), rand |-> rnd],
+                             IF same THEN [panic |-> FALSE, err |-> FALSE, pub |-> Ref(1, "pub"), shared |-> Ref(1, "shared")] ELSE [panic |-> FALSE, err |-> FALSE]) IN
+  VectorD("dh_longpeer", << >>,
+    << st(y, FALSE),
+       st(P(grp) \o y, TRUE),                                  \* 256 p + y
+       st(<< 0 >> \o y, TRUE),
+       st(<< 0 >> \o P(grp) \o y, TRUE),
+       st([i \in 1..Len(P(grp)) |-> IF i = Len(P(grp)) THEN P(grp)[i] - 255 + y[1] ELSE P(grp)[i]] \o << >>, FALSE),   \* p - 255 + y: another residue, no expectation beyond no error
+       st(<< 1 >> \o Zeros(Len(P(grp)) - 1) \o << 0 >>, FALSE) >>)  \* 2^(8n): only the excess octet is non-zero
 
 RandVector(k) ==
   VectorD("rand", << >>,
@@ -80,8 +95,9 @@ RandVector(k) ==
 Init == stage = 0 /\ g = 0 /\ xi = 0 /\ yi = 0
 Next == \/ stage = 0 /\ stage' = 1 /\ g' \in {2, 14} /\ xi' \in 1..NExp /\ yi' = 0
         \/ stage = 0 /\ stage' = 2 /\ g' = 0 /\ xi' \in 0..27 /\ yi' = 0
+        \/ stage = 0 /\ stage' = 2 /\ g' \in {2, 14} /\ xi' \in 100..103 /\ yi' = 0
         \/ stage = 1 /\ stage' = 2 /\ yi' \in 1..NPeer /\ UNCHANGED << g, xi >>
         \/ stage = 2 /\ UNCHANGED << stage, g, xi, yi >>
-Emit == stage = 2 => PrintT(ToJson(IF g = 0 THEN RandVector(xi) ELSE PairVector(g, xi, yi)))
+Emit == stage = 2 => PrintT(ToJson(IF g = 0 THEN RandVector(xi) ELSE IF xi >= 100 THEN LongPeerVector(g, xi - 100) ELSE PairVector(g, xi, yi)))
 Sound == TRUE
 =============================================================================
